@@ -18,9 +18,10 @@ theorem C16 (ls₁ ls₂ : List LineSpec) (h₁ : ∀ l ∈ ls₁, LineSpec.WF l
   rw [C08_stream ls₁ hne₁ h₁, C08_stream ls₂ hne₂ h₂, hsame]
 
 /-- the presentation components do not enter `instOf`: indentation, byte column, padding, gap,
-annotation and comment of an instruction line can be changed freely -/
-theorem C16_presentation (l : InstLine) (indent pad gap : Nat) (bytes : List (Char × Char)) (annot comment : Option Str) :
-    instOf (.inst { l with indent := indent, pad := pad, gap := gap, bytes := bytes, annot := annot, comment := comment })
+annotation, comment and trailing blanks of an instruction line can be changed freely -/
+theorem C16_presentation (l : InstLine) (indent pad gap trail : Nat) (bytes : List (Char × Char)) (annot comment : Option Str) :
+    instOf (.inst { l with indent := indent, pad := pad, gap := gap, bytes := bytes, annot := annot, comment := comment,
+                           trail := trail })
       = instOf (.inst l) := rfl
 
 /-- labels, blank lines, headers, section lines, `...` and continuation lines contribute nothing -/
